@@ -25,7 +25,11 @@ class Run:
             self.distinct.add(key)
 
     def violation(self, vid, **detail):
-        if len(self.violations) < 5 and not any(v['id'] == vid for v in self.violations):
+        if any(v['id'] == vid for v in self.violations):
+            return
+        known = str(vid).startswith('known:')
+        n = sum(1 for v in self.violations if str(v['id']).startswith('known:') == known)
+        if n < (100 if known else 5):
             self.violations.append(dict(id=vid, **detail))
 
     def finish(self):
